@@ -622,6 +622,9 @@ func (f *Frame) lookupOp(x *ssa.Lookup, st *State) Value {
 		v := u.mapGetRaw(st.heap, CVal{T: m, Ty: x.X.Type()}, CVal{T: k})
 		val := u.freshDef(x.Name(), mkIte(has, v.T, u.te.zero(t.Elem())))
 		u.assume(st.reach, mkImp(has, u.wf(val, t.Elem(), st.wm)))
+		if f.hasSites() {
+			f.siteHook("maplookup", x, st, map[string]Value{"key": f.val(x.Index), "value": {T: val, Ty: t.Elem()}, "found": {T: u.freshDef(x.Name()+"found", has), Ty: types.Typ[types.Bool]}})
+		}
 		if x.CommaOk {
 			return Value{Tuple: []Value{{T: val, Ty: t.Elem()}, {T: u.freshDef(x.Name()+"ok", has), Ty: types.Typ[types.Bool]}}, Ty: x.Type()}
 		}
